@@ -154,6 +154,10 @@ def build_pool():
         fn=lambda cache: path_obs(ctg.array_contract_path(
             base_in, ("a", "d"), sd, optimize="greedy", cache=cache), 3),
         want=None)
+    P["path-auto"] = dict(
+        fn=lambda cache: path_obs(ctg.array_contract_path(
+            base_in, ("a", "d"), sd, optimize="auto", cache=cache), 3),
+        want=None)
     P["path-greedy-sizes2"] = dict(
         fn=lambda cache: path_obs(ctg.array_contract_path(
             base_in, ("a", "d"), {"a": 7, "b": 2, "c": 7, "d": 2},
@@ -192,6 +196,16 @@ def build_pool():
         fn=expr_reuse,
         want=["two-values", want(base_in, ("a", "d"), sd),
               want(base_in, ("a", "d"), sd, seed=5)])
+
+    def expr_greedy(cache):
+        # same contraction, same optimize and no further options as
+        # "path-greedy": the two caches must not mix their entries up
+        expr = ctg.array_contract_expression(
+            base_in, ("a", "d"), sd, optimize="greedy", cache=cache)
+        return val(expr(*arrs))
+
+    P["expression-greedy-no-options"] = dict(
+        fn=expr_greedy, want=want(base_in, ("a", "d"), sd))
 
     def ac_expr(cache):
         expr = ctg.array_contract_expression(
